@@ -11,7 +11,7 @@ RULE = (
     "caller with 1..3 calls whose actual arguments are plain variables, tuple elements of bool AND integer type, nested elements, "
     "repeated or swapped variables, boolean expressions (for bool formals), with call results used in arithmetic / comparisons / "
     "if-expressions; caller names are drawn from a pool containing the callee's formal names, '<callee>_<formal>' and the callee name "
-    "prefix; delivery by defs=[...], by an inline def, or through oraclize(g, value). The caller's expression list is evaluated on ALL "
+    "prefix (in 60% of the cases the variable feeding formal j is deliberately called like another formal, plain or '<callee>_'-prefixed); delivery by defs=[...], by an inline def, or through oraclize(g, value). The caller's expression list is evaluated on ALL "
     "argument assignments against the reference with the callee applied to the actual values; free symbols and any change of the "
     "callee's fingerprint are violations. Non-trivial = a call whose argument is an element, repeat, swap or name clash and the caller "
     "result is not constant; distinct by canonical JSON of the case"
